@@ -11,7 +11,8 @@ if ! (cd "$scratch" && patch -p1 -s < "$patch"); then echo "SELFTEST-ERROR $labe
 if ! (cd "$scratch" && go build ./... >/dev/null 2>&1); then echo "SELFTEST-ERROR $label: mutant does not build"; exit 1; fi
 res=$(VERIF_REPO="$scratch" VERIF_OUT_DIR="$out" "$HERE/check" "$prop" --tier quick 2>&1)
 if echo "$res" | grep -q "^VIOLATION property=$prop"; then
-   echo "caught   $label  ($(echo "$res" | grep -m1 '^  obligation' | cut -c1-140))"
+   if echo "$res" | grep "^VIOLATION property=$prop" | grep -qv "no-failing-input-found"; then how="failing-input-replayed"; else how="no-failing-input-found"; fi
+   echo "caught   $label  [$how] ($(echo "$res" | grep -m1 '^  obligation' | cut -c1-140))"
    exit 0
 fi
 echo "MISSED   $label"; echo "$res" | tail -3
